@@ -1512,6 +1512,11 @@ local function visitor_Call(context, node, argnodes, calleetype, calleesym, call
             attr.polyeval = polyeval
           end
           if polyeval and polyeval.node and polyeval.node.attr.type then
+            if polyeval.node.attr.type.is_polyfunction then
+              -- the evaluated function is bound to a variable declared before it (`local f; function f(a: auto)`),
+              -- so the evaluation got the polymorphic type of that variable instead of a concrete function type
+              node:raisef("in call of function '%s': polymorphic functions cannot be forward declared", calleename)
+            end
             calleesym = polyeval.node.attr
             calleetype = polyeval.node.attr.type
           elseif context.state.inpolyeval ~= polyeval then
